@@ -1,13 +1,55 @@
-/- Driver for the lru engine (ops whose name starts with `c`). -/
+/- Driver for the lru engine (ops whose name starts with `c`).
+
+  cnew TTL CAP        (CAP = number | none)      → ok
+  cins T K V                                      → ok
+  cget T K | cpeek T K | crm T K                  → some V | none
+  cgm T K W           (get_mut, then *v = W)      → some V | none     (V = value before the write)
+  clen T                                          → N
+  csweep T            (remove_expired_values)     → keys K1,K2,… | keys -
+
+`T` is the scripted time in milliseconds since the start of the case (the harness sleeps in
+real time; the model only ever sees the scripted value). -/
 import Driver.Common
+import Discv5Model.Model.Lru
 namespace Discv5.Driver
+open Discv5.Lru
 
 structure LruSt where
-  dummy : Unit := ()
+  cache : Option (Cache Nat Nat) := none
+
+def showOpt : Option Nat → String
+  | some v => s!"some {v}"
+  | none => "none"
+
+def showKeys (ks : List Nat) : String :=
+  if ks.isEmpty then "keys -" else "keys " ++ ",".intercalate (ks.map toString)
+
+def showReply : Reply Nat Nat → String
+  | .unit => "ok"
+  | .val o => showOpt o
+  | .num n => toString n
+  | .keys ks => showKeys ks
+
+def parseLruOp : List String → Option (Nat × Op Nat Nat)
+  | ["cins", t, k, v] => some (nat! t, .insert (nat! k) (nat! v))
+  | ["cget", t, k] => some (nat! t, .get (nat! k))
+  | ["cgm", t, k, w] => some (nat! t, .getMut (nat! k) (nat! w))
+  | ["cpeek", t, k] => some (nat! t, .peek (nat! k))
+  | ["clen", t] => some (nat! t, .len)
+  | ["crm", t, k] => some (nat! t, .remove (nat! k))
+  | ["csweep", t] => some (nat! t, .sweep)
+  | _ => none
 
 /-- One op of the lru engine: full token list (op name first) → new state and reply line. -/
 def lruStep (st : LruSt) (toks : List String) : LruSt × String :=
   match toks with
-  | _ => (st, "bad-op")
+  | ["cnew", ttl, cap] =>
+    ({ cache := some (Lru.new (nat! ttl) (if cap == "none" then none else some (nat! cap))) }, "ok")
+  | _ =>
+    match st.cache, parseLruOp toks with
+    | some c, some (t, op) =>
+      let r := Lru.step c t op
+      ({ cache := some r.1 }, showReply r.2)
+    | _, _ => (st, "bad-op")
 
 end Discv5.Driver
